@@ -435,7 +435,64 @@ func countOps(t *xt) int {
 	return 1 + countOps(t.l) + countOps(t.r)
 }
 
+// c07Membership: `in` over list literals and over lists from the context: an element of the same
+// kind is found exactly when it is there (the elements of a list literal are values, not boxes)
+func c07Membership(cfg Config, res *Result) {
+	type lit struct{ src, key string }
+	ints := []lit{{"1", "i1"}, {"2", "i2"}, {"7", "i7"}, {"x", "i3"}} // x = 3 in the context
+	strs := []lit{{`"a"`, "sa"}, {`"b"`, "sb"}, {`""`, "s"}, {"s", "shello"}}
+	var cases []ProgCase
+	wants := map[string]string{}
+	ct := CtxTerm{Names: []string{"x", "s", "li", "ls"}, Vals: []VT{vInt(3), vStr("hello"), vList("int", vInt(1), vInt(3)), vList("string", vStr("a"), vStr("hello"))}}
+	add := func(src string, want bool) {
+		w := "False"
+		if want {
+			w = "True"
+		}
+		c := ct
+		pc := ProgCase{Src: "{{ " + src + " }}{% if " + src + " %}y{% else %}n{% endif %}", Ctx: &c, Label: "membership"}
+		cases = append(cases, pc)
+		wants[pc.Req()] = w + map[bool]string{true: "y", false: "n"}[want]
+	}
+	for _, pool := range [][]lit{ints, strs} {
+		for _, item := range pool {
+			for mask := 0; mask < 1<<len(pool); mask++ {
+				var elems []string
+				has := false
+				for j, e := range pool {
+					if mask&(1<<j) != 0 {
+						elems = append(elems, e.src)
+						if e.key == item.key {
+							has = true
+						}
+					}
+				}
+				if len(elems) == 0 {
+					continue
+				}
+				add(item.src+" in ["+strings.Join(elems, ", ")+"]", has)
+				add("not ("+item.src+" in ["+strings.Join(elems, ", ")+"])", !has)
+			}
+		}
+	}
+	for _, c := range []struct {
+		src  string
+		want bool
+	}{{"1 in li", true}, {"x in li", true}, {"2 in li", false}, {`"a" in ls`, true}, {"s in ls", true}, {`"b" in ls`, false}, {"x in [li.0, li.1]", true}, {"2 in [li.0, li.1]", false}} {
+		add(c.src, c.want)
+	}
+	runProgCases(cfg, res, cases, "c07m", func(c ProgCase, o ImplOutcome) bool { return true },
+		func(c ProgCase, o ImplOutcome) *Finding {
+			want := wants[c.Req()]
+			if o.Class != "ok" || o.Out != want {
+				return &Finding{Kind: "oracle", Proj: "semantics", Sig: "c07-membership", Case: c.String(), Impl: o.Canon() + " " + o.Msg, Model: "ok " + hxb(want)}
+			}
+			return nil
+		})
+}
+
 func suiteC07(cfg Config, res *Result) {
+	defer c07Membership(cfg, res)
 	res.Rule = "expression trees over the leaves {0,1,2,7,-3,2.5,\"a\",\"\",true,false,x:int,y:float,s:string} and 15 binary + 2 unary operators: all trees of depth <= 2 (exhaustive), every ordered pair of binary operators in both groupings over numeric leaf triples, plus random trees up to depth 5 (quick) / 8 (thorough); each tree inside the uncontroversial fragment (decided by the independent evaluator) is printed with minimal parentheses, random spacing and operator spellings, rendered through {{ e }} and {% if e %}, and compared with the independent evaluator and with the Lean model; non-trivial = >= 2 operators; distinct by printed source"
 	rng := NewRNG(cfg.Seed)
 	var trees []*xt
